@@ -233,7 +233,7 @@ func genC20(t *rapid.T) c20Case {
 		if s < nseg {
 			m := pick(t, "marker", []string{"</head", "<link", "<style", "<script", "</HEAD>", "<LiNk rel=x>", "<Style>", "<SCRIPT src=a>",
 				"</hea", "<lin", "<styl", "<scrip", "< link", "<\x00link", "</head</head", "<sCRIPT",
-				"\x1cscript", "\x1clink", "\x1cstyle", "<\x0fhead", "\x1c\x0fhead", "<\x0fHEAD", "<scr\x49pt", "<l\x09nk", "<SCR\u0130PT", "<scr\u0131pt"})
+				"<<script", "a<<LINK", "1<</HEAD", "<<<style", "\x1cscript", "\x1clink", "\x1cstyle", "<\x0fhead", "\x1c\x0fhead", "<\x0fHEAD", "<scr\x49pt", "<l\x09nk", "<SCR\u0130PT", "<scr\u0131pt"})
 			body = append(body, m...)
 		}
 	}
